@@ -106,10 +106,21 @@ func genC07(t *rapid.T) C07Case {
 	}
 	c.Seq = genC07Calls(t, np, 10, 60)
 	ng := rapid.IntRange(2, depthMax(8, 16)).Draw(t, "goroutines")
-	for gi := 0; gi < ng; gi++ {
-		c.Par = append(c.Par, genC07Calls(t, np, 10, depthMax(50, 200)))
-	}
+	lo, hi := 10, depthMax(50, 200)
 	c.Consumer = rapid.IntRange(0, 2).Draw(t, "consumer")
+	if rapid.IntRange(0, 9).Draw(t, "crowd") == 0 {
+		// a crowd: hundreds of evaluations in flight at once - every program reports events to an
+		// unbuffered channel with a slow reader, so the goroutines pile up inside Eval / TryEval
+		ng = rapid.IntRange(130, 320).Draw(t, "crowdsize")
+		lo, hi = 1, 3
+		c.Consumer = 2
+		for i := range c.Progs {
+			c.Progs[i].Events = 1 + i%2
+		}
+	}
+	for gi := 0; gi < ng; gi++ {
+		c.Par = append(c.Par, genC07Calls(t, np, lo, hi))
+	}
 	return c
 }
 
@@ -417,7 +428,11 @@ func checkC07(c C07Case, r *Rec) *Violation {
 	if overlapped {
 		r.Class("goroutines-overlapped")
 	}
-	r.Class(fmt.Sprintf("goroutines:%02d", len(c.Par)))
+	if len(c.Par) > 100 {
+		r.Class("goroutines:crowd(130..320)")
+	} else {
+		r.Class(fmt.Sprintf("goroutines:%02d", len(c.Par)))
+	}
 	anyEvents := false
 	for _, p := range c.Progs {
 		if p.Events > 0 {
